@@ -3,7 +3,7 @@
    that [Eval vm_compute in (eval_cases [...])] and parses the printed list (as run/StyleShow.v does).
    One case = the arguments of run/CfgexpandRun.run_expand, as Coq terms. *)
 From Coq Require Import PrimFloat List ZArith NArith.
-From Emmet Require Import lib.Base lib.ConfigLib lib.ConfigVal model.Config proofs.ConfigExpand proofs.ConfigExpandCss
+From Emmet Require Import lib.Base lib.ConfigLib lib.ConfigVal model.Config proofs.ConfigExpand proofs.ConfigExpandCss proofs.ConfigExpandTables
      run.ConfigRun run.CfgexpandRun run.StyleShow.
 Import ListNotations.
 
